@@ -39,7 +39,7 @@ def run(ctx) -> None:
                                    "to exit by an invalidation of the memo on the same object, or the function swaps storage "
                                    "without invalidating and EVERY call site is followed by an invalidation / has a FRESH receiver", 2)
     ctx.rule("b.container", "the fingerprint() a Table resolves to (MRO) neither reads nor writes a memo: columns are live "
-                            "views that can be written without the table being told", 1)
+                            "views that can be written without the table being told; Row.fingerprint likewise (a Row has no memo slot)", 2)
     ctx.rule("c.content-only", "the value folded by _compute_fingerprint_full/_hash_element depends on the elements of "
                                "_underlying, in order (accumulator multiplied before the element hash is added), and on "
                                "class constants only - never on id(), names, dtypes, time or randomness", 2)
@@ -191,6 +191,28 @@ def _container(ctx) -> None:
             problems.append(f"{fp.qualname} does not recompute from the columns")
     ctx.ob("b.container", fp, "table-fingerprint", not problems, f"Table.fingerprint -> {fp.qualname}: recomputed on every call",
            fp.node, message="; ".join(problems[:3]))
+    # a Row is a view whose index changes (set_index) and that bypasses Vector.__init__ (no _fp attribute): its fingerprint() must
+    # resolve to a definition that recomputes on every call too
+    rfp = prog.method("Row", "fingerprint")
+    rprobs = []
+    if rfp is None:
+        rprobs.append("Row has no fingerprint() in its MRO")
+    elif rfp.cls == "Vector":
+        rprobs.append("Row.fingerprint resolves to Vector.fingerprint, which reads self._fp: a Row never gets that attribute (it bypasses "
+                      "Vector.__init__), so t[1].fingerprint() raises AttributeError - and a memo would be stale after set_index()")
+    else:
+        ri = interp_of(prog, rfp)
+        RS = ("param", rfp.params[0])
+        for e in ri.events:
+            for t in [e.term] + ([e.value] if e.value is not None else []) + [c for c, _ in e.conds]:
+                if any(x[0] == "attr" and x[1] == RS and x[2] == "_fp" for x in subterms(t)):
+                    rprobs.append(f"{rfp.qualname} uses the memo self._fp")
+        rr = [e for e in ri.events if e.kind == "return" and e.depth == 0]
+        if not rr or ri.falls_through or any(e.term != ("call", ("attr", RS, "_compute_fingerprint_full"), (), ()) and e.term[0] != "after"
+                                             for e in rr):
+            rprobs.append(f"{rfp.qualname} does not recompute from the row's cells")
+    ctx.ob("b.container", rfp or fp, "row-fingerprint", not rprobs, "Row.fingerprint: recomputed on every call", (rfp or fp).node,
+           message="; ".join(sorted(set(rprobs))[:2]))
 
 
 def _content_seed(init, X) -> bool:
@@ -271,6 +293,43 @@ def _content_only(ctx) -> None:
                 p2 += [f"nested fold: {m}" for m in _fold_problems(gi, t[2], t[1], lambda src: src == X, gh)]
     ctx.ob("c.content-only", g, "element-hash", not p2, "_hash_element reads only the element (and class constants)", g.node,
            message="; ".join(p2))
+    # hash() of a NaN (float, or complex with a NaN part) is derived from the OBJECT'S ADDRESS (Python >= 3.10): no return that takes
+    # hash(x) of the element itself may be reachable for such an x - decided by evaluating the path conditions for the two kinds of NaN
+    def reach(e, kind) -> bool:
+        def tr(t):
+            k = t[0]
+            if k == "bool":
+                vs = [tr(x) for x in t[2]]
+                if t[1] == "and":
+                    return False if any(v is False for v in vs) else (True if all(v is True for v in vs) else None)
+                return True if any(v is True for v in vs) else (False if all(v is False for v in vs) else None)
+            if k == "un" and t[1] == "Not":
+                v = tr(t[2])
+                return None if v is None else (not v)
+            if k == "cmp" and t[1] in ("Is", "IsNot") and t[2] == X and t[3] == ("const", "NoneType", None):
+                return t[1] == "IsNot"
+            if k == "cmp" and t[1] in ("NotEq", "Eq") and t[2] == X and t[3] == X:
+                return t[1] == "NotEq"
+            if k == "call" and t[1] == ("name", "isinstance") and len(t[2]) == 2 and t[2][0] == X:
+                c = t[2][1]
+                names = {n_[1] for n_ in ([c] if c[0] == "name" else list(c[1]) if c[0] == "tuple" else []) if n_[0] == "name"}
+                return kind in names
+            if k == "call" and t[1] in (("attr", ("name", "math"), "isnan"), ("name", "isnan")) and t[2] == (X,):
+                return True if kind == "float" else None
+            if k == "call" and t[1] in (("name", "hasattr"), ("name", "callable")):
+                return False
+            if k == "call" and t[1] == ("name", "_is_hashable") and t[2] == (X,):
+                return True
+            return None
+        return all((tr(t) if pol else (None if tr(t) is None else not tr(t))) is not False for t, pol in e.conds)
+    nanp = []
+    for e in gi.events:
+        if e.kind == "return" and e.depth == 0 and any(t == ("call", ("name", "hash"), (X,), ()) for t in _subterms(e.term)):
+            for kind in ("float", "complex"):
+                if reach(e, kind):
+                    nanp.append(f"`return {show(e.term, gi)[:40]}` is reached by a {kind} NaN: hash() of a NaN depends on the object's address, "
+                                f"so equal contents get different fingerprints")
+    ctx.ob("c.content-only", g, "nan-by-value", not nanp, "no hash(x) is taken of a float / complex NaN", g.node, message="; ".join(nanp[:2]))
 
 
 _M64 = 2 ** 64 - 1
@@ -588,6 +647,11 @@ MUTANTS = [
          old="		return self._compute_fingerprint_full()\n\n	def _build_column_map",
          new="		if self._fp is None:\n			self._fp = self._compute_fingerprint_full()\n		return self._fp\n\n	def _build_column_map",
          rules=["b.container", "d.memo-discipline"]),
+    dict(id="complex-nan-hashed-by-identity", module=_V, old="		if isinstance(x, complex) and x != x:\n", new="		if False:\n", rules=["c.content-only"],
+         desc="reverts the complex-NaN fix"),
+    dict(id="float-nan-hashed-by-identity", module=_V, old="			if math.isnan(x):\n				return 0xDEADBEEFCAFEBABE\n", new="", rules=["c.content-only"]),
+    dict(id="row-fingerprint-inherited", module="table", old="	def fingerprint(self):\n		# never memoised: the same Row object",
+         new="	def _unused_fingerprint(self):\n		# never memoised: the same Row object", rules=["b.container"], desc="reverts fix 71ab607"),
     dict(id="table-fingerprint-removed", module="table",
          old="		return self._compute_fingerprint_full()\n\n	def _build_column_map",
          new="		return Vector.fingerprint(self)\n\n	def _build_column_map", rules=["b.container"]),
